@@ -130,6 +130,9 @@ def hyp_search(test_fn, strategy, seed, max_examples, shrink=True, stateful_kw=N
 
 def _run_shard(args):
     mod_name, shard = args
+    if os.environ.get("VERIF_STUCK_TRACE"):      # debugging aid: dump the Python stack of a shard every N seconds
+        import faulthandler
+        faulthandler.dump_traceback_later(int(os.environ["VERIF_STUCK_TRACE"]), repeat=True, file=open("/tmp/verif_stuck_%d.txt" % os.getpid(), "w"))
     try:
         import importlib
         mod = importlib.import_module(mod_name)
